@@ -89,6 +89,10 @@ impl PathBuf {
         ensures self.abs_clean() && self@.len() > 0 ==> r is Ok && r->Ok_0@ == self@.last(),
                 self.abs_clean() && self@.len() == 0 ==> r is Ok,
     { unimplemented!() }
+    // PathExt::name: the final component without its extension (unit path_helpers); equal to base() only when there is no extension,
+    // which nothing here decides, so the result is unspecified
+    #[verifier::external_body]
+    pub fn name(&self) -> (r: RvResult<NameStr>) { unimplemented!() }
     #[verifier::external_body]
     pub fn mash_name(&self, n: &NameStr) -> (r: PathBuf)
         ensures self.abs_clean() ==> r.abs_clean() && r@ == self@.push(n@)
